@@ -405,7 +405,7 @@ def races(chk, gwbin):
             chk.case(("race", name, n[0] if name.startswith("stress") else 0), True); chk.traces += 1
             chk.count("race:%s:upload=%d:delete=%s" % (name.split("#")[0], up.status, dl.status if dl is not None else None))
             upok = up.status == 200 and (up.xml() is None or up.xml().tag != "Error")
-            if upok and get.status != 200:
+            if upok and get.status != 200 and not name.startswith("create-multipart"):        # (an initiated upload is not an object yet)
                 chk.fail("c16:acknowledged-upload-lost:" + name.split("#")[0], "schedule %s: the upload of %s/%s was acknowledged (%d), DeleteBucket answered %s, and the object now reads %d %s" % (
                     name, bk, key, up.status, row["delete_bucket"], get.status, get.code), row)
             if dl is not None and dl.status == 204 and (head.status == 200 or listed):
@@ -424,6 +424,12 @@ def races(chk, gwbin):
         cmu = lambda: B.req("POST", "/%s/mp" % bk, query={"uploadId": uid}, body=("<CompleteMultipartUpload><Part><PartNumber>1</PartNumber><ETag>%s</ETag></Part></CompleteMultipartUpload>" % rp.headers.get("etag", "")).encode())
         dl, up, parked = hooks.held(hk, "posix.deletebucket.checked", lambda: A.req("DELETE", "/" + bk), cmu)
         verdict("delete-checked|complete-multipart|delete-removes", bk, "mp", up, dl, parked)
+        # S2b: an upload / a multipart initiation parked right after it found the bucket; the bucket is deleted meanwhile, the request goes on
+        for key_ in ("obj", "deep/er/obj"):
+            bk = fresh(); up, dl, parked = hooks.held(hk, "posix.putobject.bucketchecked", lambda: A.req("PUT", "/%s/%s" % (bk, key_), body=b"data"), lambda: B.req("DELETE", "/" + bk))
+            verdict("put-bucket-checked|delete|put-goes-on", bk, key_, up, dl, parked)
+        bk = fresh(); up, dl, parked = hooks.held(hk, "posix.createmultipart.bucketchecked", lambda: A.req("POST", "/%s/mp" % bk, query={"uploads": ""}), lambda: B.req("DELETE", "/" + bk))
+        row_ = verdict("create-multipart-bucket-checked|delete|create-goes-on", bk, "mp", up, dl, parked)
         # S3: an upload parked just before publication; the bucket is deleted meanwhile
         bk = fresh(); up, dl, parked = hooks.held(hk, "posix.putobject.beforelink", lambda: A.req("PUT", "/%s/obj" % bk, body=b"data"), lambda: B.req("DELETE", "/" + bk))
         verdict("put-before-link|delete|put-links", bk, "obj", up, dl, parked)
